@@ -53,6 +53,22 @@ impl ExtTable {
             }
         }
     }
+    /// The canonical strings of a real pinned source themselves (what `AssumedPinned`/`WFPinned` ask about),
+    /// also when the source string would not be split there (e.g. a url containing `?`).
+    pub fn add_pinned(&mut self, p: &source::Pinned) {
+        match p {
+            source::Pinned::Git(g) => { let q = g.source.repo.to_string(); self.0.entry(('u', q.clone())).or_insert_with(|| url_canon(&q)); }
+            source::Pinned::Ipfs(_) => { let s = p.to_string(); let q = s.strip_prefix("ipfs+").unwrap_or(&s).to_string(); self.0.entry(('c', q.clone())).or_insert_with(|| cid_canon(&q)); }
+            source::Pinned::Registry(r) => {
+                let v = r.source.version.to_string();
+                self.0.entry(('v', v.clone())).or_insert_with(|| ver_canon(&v));
+                if let Some(c) = serde_json::to_value(&r.cid).ok().and_then(|x| x.as_str().map(|s| s.to_string())) {
+                    self.0.entry(('c', c.clone())).or_insert_with(|| cid_canon(&c));
+                }
+            }
+            _ => {}
+        }
+    }
     /// `X <n> {<kind> <query> <answer|!>}`
     pub fn tokens(&self) -> String {
         let mut s = format!("X {}", self.0.len());
